@@ -354,6 +354,19 @@ def _alarm(signum, frame):
     raise _Timeout()
 
 
+class _ShortReads:
+    """SupportsRead[bytes] that returns at most `chunk` bytes per call, fewer than asked, although more follow."""
+
+    def __init__(self, data: bytes, chunk: int):
+        self.s = io.BytesIO(data)
+        self.chunk = chunk
+
+    def read(self, n: int = -1) -> bytes:
+        if n is None or n < 0 or n > self.chunk:
+            n = self.chunk
+        return self.s.read(n)
+
+
 class _Run:
     def __init__(self, sim, tape, trace, stats):
         self.sim = sim
@@ -364,6 +377,7 @@ class _Run:
         self.h = hashlib.sha1()
         self.rot = 0
         self.primary = 0
+        self.short_chunk = 1
         self.current = b""
 
     # -- decoding through the entry points -------------------------------------------------------
@@ -375,6 +389,11 @@ class _Run:
                 return "ok", cls.FromString(data)
             if entry == 2:
                 return "ok", cls().load(io.BytesIO(data))
+            if entry == 4:
+                # a stream that hands out at most `short_chunk` bytes per read() although more follow (a pipe, a
+                # socket file): a loader may give up on it (raising is within the statement) or cope - but what
+                # it returns must still be a well-typed message
+                return "ok", cls().load(_ShortReads(data, self.short_chunk))
             s = io.BytesIO(wire.enc_varint(len(data)) + data)
             m = cls().load(s, SD)
             return "ok", m
@@ -383,7 +402,7 @@ class _Run:
         except Exception as e:  # noqa: BLE001
             return "raise", e
 
-    ENTRY_NAMES = ("parse", "FromString", "load", "load(SIZE_DELIMITED)")
+    ENTRY_NAMES = ("parse", "FromString", "load", "load(SIZE_DELIMITED)", "load(short reads)")
 
     def decode(self, cls, data: bytes, kind: str):
         """parse, and for every third input one rotating other entry point.  Returns [(entry name, 'ok' |
@@ -398,9 +417,9 @@ class _Run:
         first = self.primary
         st, got = self._decode_one(cls, data, first)
         results = [(self.ENTRY_NAMES[first], st, got)]
-        self.rot = (self.rot + 1) % 9
+        self.rot = (self.rot + 1) % 12
         if self.rot % 3 == 0:
-            entry = [e for e in range(4) if e != first][self.rot // 3]
+            entry = [e for e in range(5) if e != first][self.rot // 3]
             st2, got2 = self._decode_one(cls, data, entry)
             results.append((self.ENTRY_NAMES[entry], st2, got2))
             if st != st2:
@@ -463,6 +482,9 @@ class _Run:
                                         f"[{kind}]{via} {detail} occurrence {occ.hex()} is not re-emitted by "
                                         f"bytes(result) = {out.hex()[:160]}")
             else:
+                if entry == "load(short reads)":
+                    self.stats["recorded:short-read-stream-rejected"] += 1
+                    continue               # giving up on such a stream is allowed for any input
                 if expect in ("same", "same+verbatim"):
                     raise Violation("C17.M4", f"rejected:{kind}",
                                     f"[{kind}]{via} {detail} inserted {occ.hex()} into a valid {cls.__name__} encoding: decoding "
@@ -508,6 +530,7 @@ class _Run:
             trace.append(f"skip: valid encoding rejected: {type(base).__name__}")
             return False, 0, 0.0
         self.primary = tape.draw(4, "primary-entry-point")
+        self.short_chunk = tape.choice([1, 2, 3, 7], "short-read-chunk")
         stats[f"probe:primary-entry-point-{self.ENTRY_NAMES[self.primary]}"] += 1
         trace.append(f"{cls.__name__} writer={writer} entry={self.ENTRY_NAMES[self.primary]} enc={len(enc)}B {enc.hex()[:120]} {short(msg, 120)}")
         top = wire.parse_fields(enc)
